@@ -94,3 +94,22 @@ func VerifC20_ValidatorJSON() {
 		w.PublicKey != nil && w.PublicKey.RawString() == v.PublicKey.RawString())
 	zz.Reach("C20.validator-json.end")
 }
+
+// VerifC20_UnstakingQueueKey: the unstaking-queue key of a completion time decodes back to that instant, is the same
+// for the same instant whatever location the time.Time value carries (UTC or a fixed zone), and two keys order like
+// their instants (sortable time text modelled as an order-isomorphic encoding of the wall-clock reading).
+func VerifC20_UnstakingQueueKey() {
+	zones := []*time.Location{time.UTC, time.FixedZone("east", 5*3600), time.FixedZone("west", -(3*3600 + 1800))}
+	s1, n1 := zz.Int64("sec1", 1000000, 4000000000), zz.Int64("nsec1", 0, 999999999)
+	s2, n2 := zz.Int64("sec2", 1000000, 4000000000), zz.Int64("nsec2", 0, 999999999)
+	t1 := time.Unix(s1, n1).In(zones[zz.Choice("zone1", 3)])
+	t2 := time.Unix(s2, n2).In(zones[zz.Choice("zone2", 3)])
+	k1, k2 := KeyForUnstakingValidators(t1), KeyForUnstakingValidators(t2)
+	back, err := sdk.ParseTimeBytes(k1[len(UnstakingValidatorsKey):])
+	zz.Assert("C20.queuekey.decodes-to-the-instant", err == nil && back.Equal(t1))
+	same := zz.And(s1 == s2, n1 == n2)
+	zz.Assert("C20.queuekey.same-instant-same-key", zz.BytesEqual(k1, k2) == same)
+	before := zz.Or(s1 < s2, zz.And(s1 == s2, n1 < n2))
+	zz.Assert("C20.queuekey.orders-like-time", zz.BytesLess(k1, k2) == before)
+	zz.Reach("C20.queuekey.end")
+}
